@@ -2383,8 +2383,9 @@ def _sink_definitions(fn):
                 i0 = i
                 i -= 1
                 if not (isinstance(st, ast.Assign) and len(st.targets) == 1 and isinstance(st.targets[0], ast.Subscript)
-                        and isinstance(st.targets[0].value, ast.Name) and _pure_expr(st.targets[0].slice) and _pure_expr(st.value)):
-                    continue
+                        and isinstance(st.targets[0].value, ast.Name) and _pure_expr(st.targets[0].slice) and _total_expr(st.value)
+                        and not any(isinstance(y, ast.Call) for y in ast.walk(st.targets[0].slice))):
+                    continue                    # only stores of names / literals (an initial value), indexed without calls
                 nm = st.targets[0].value.id
                 free = {x.id for x in ast.walk(st) if isinstance(x, ast.Name)}
                 j = i0 + 1
